@@ -44,7 +44,10 @@ func battery(r *rand.Rand, keys []string, complete bool, intW int) []op {
 	for _, q := range qs {
 		q := q
 		ops = append(ops,
-			op{"Get", func(st *slim.SlimTrie, e encode.Encoder) string { v, f := st.Get(q); return fmt.Sprint(render(e, v), f) }},
+			op{"Get", func(st *slim.SlimTrie, e encode.Encoder) string {
+				v, f := st.Get(q)
+				return fmt.Sprint(render(e, v), f)
+			}},
 			op{"GetID", func(st *slim.SlimTrie, e encode.Encoder) string { return fmt.Sprint(st.GetID(q)) }},
 			op{"RangeGet", func(st *slim.SlimTrie, e encode.Encoder) string {
 				v, f := st.RangeGet(q)
@@ -91,7 +94,10 @@ func battery(r *rand.Rand, keys []string, complete bool, intW int) []op {
 	ops = append(ops,
 		op{"Stat", func(st *slim.SlimTrie, e encode.Encoder) string { return fmt.Sprintf("%+v", *st.Stat()) }},
 		op{"String", func(st *slim.SlimTrie, e encode.Encoder) string { s := st.String(); return ft.Fnv64([]byte(s)) }},
-		op{"Marshal", func(st *slim.SlimTrie, e encode.Encoder) string { b, err := st.Marshal(); return fmt.Sprint(ft.Fnv64(b), err) }},
+		op{"Marshal", func(st *slim.SlimTrie, e encode.Encoder) string {
+			b, err := st.Marshal()
+			return fmt.Sprint(ft.Fnv64(b), err)
+		}},
 	)
 	return ops
 }
